@@ -195,22 +195,44 @@ class LiftRunner:
         raise ValueError(via)
 
     def observe(self, obj, case):
-        """Evaluate the composed object -> JSON term."""
+        """Evaluate the composed object -> JSON term.  A function is called positionally AND by
+        keyword, a stream is pulled, reset() and pulled again: both must give the same values (the
+        model has one value); a difference is made visible in the term."""
         fn, stm = self.fn, self.stm
         if isinstance(obj, fn.AbstractFunction):
-            return ['fnval', self.term_of(obj(self.Sym('s:x')))]
+            pos = self.term_of(obj(self.Sym('s:x')))
+            try:
+                kw = self.term_of(obj(x=self.Sym('s:x')))
+            except Exception as e:
+                kw = f'E:{type(e).__name__}'
+            if kw != pos:
+                return ['fnval', pos, 'called-by-keyword', kw]
+            return ['fnval', pos]
         from sc3.seq.pattern import Pattern
         if isinstance(obj, (stm.Stream, Pattern)):
             kind = 'pat' if isinstance(obj, Pattern) else 'strm'
             s = stm.stream(obj)
-            out = []
-            for _ in range(case.get('take', 8)):
-                try:
-                    out.append(self.observe_value(s.next()))
-                except stm.StopStream:
-                    out.append('stop')
-                    break
-            return [kind] + out
+
+            def pull():
+                out = []
+                for _ in range(case.get('take', 8)):
+                    try:
+                        out.append(self.observe_value(s.next()))
+                    except stm.StopStream:
+                        out.append('stop')
+                        break
+                return out
+            first = pull()
+            s.reset()
+            second = pull()
+            if second != first:
+                return [kind] + first + ['after-reset'] + second
+            if kind == 'pat' and self._embed_ok:   # the same pattern embedded in another one (`__embed__`)
+                s = stm.stream(self.Pseq([obj]))
+                third = pull()
+                if third != first:
+                    return [kind] + first + ['embedded'] + third
+            return [kind] + first
         return self.observe_value(obj)
 
     def observe_value(self, v):
@@ -224,7 +246,12 @@ class LiftRunner:
             return self.observe(v, {})
         return self.term_of(v)
 
+    _embed_ok = False
+
     def run(self, case):
+        import json
+        # a stream operand is a shared, stateful object: embedding the pattern again would continue it
+        self._embed_ok = '"strm"' not in json.dumps(case.get('args'))
         try:
             return self.observe(self.apply(case), case)
         except Exception as e:
@@ -255,25 +282,49 @@ class LiftRunner:
             return self.Operand(parse_num(d[1][1]))
         raise ValueError(d)
 
-    def deep_eval(self, v, x0, take):
-        """Evaluate every lazy member: functions at x0, streams/patterns to ('strm', items, ended)."""
+    def deep_eval(self, v, x0, take, check=False):
+        """Evaluate every lazy member: functions at x0, streams/patterns to ('strm', items, ended).
+        With `check` (the lifted object) a function is also called by keyword and a stream is
+        reset() and pulled a second time; a difference becomes an ('anomaly', …) value."""
         from sc3.seq.pattern import Pattern
         if isinstance(v, self.fn.AbstractFunction):
-            return self.deep_eval(v(x0), x0, take)
+            pos = self.deep_eval(v(x0), x0, take, check)
+            if check:
+                try:
+                    kw = self.deep_eval(v(x=x0), x0, take, check)
+                except Exception as e:
+                    kw = f'E:{type(e).__name__}'
+                if self.fmt_deep(kw) != self.fmt_deep(pos):
+                    return ('anomaly', 'called-by-keyword', pos, kw)
+            return pos
         if isinstance(v, (self.stm.Stream, Pattern)):
             s = self.stm.stream(v)
-            out, ended = [], False
-            for _ in range(take):
-                try:
-                    out.append(self.deep_eval(s.next(), x0, take))
-                except self.stm.StopStream:
-                    ended = True
-                    break
-            return ('strm', out, ended)
+
+            def pull():
+                out, ended = [], False
+                for _ in range(take):
+                    try:
+                        out.append(self.deep_eval(s.next(), x0, take, check))
+                    except self.stm.StopStream:
+                        ended = True
+                        break
+                return ('strm', out, ended)
+            first = pull()
+            if check:
+                s.reset()
+                second = pull()
+                if self.fmt_deep(second) != self.fmt_deep(first):
+                    return ('anomaly', 'after-reset', first, second)
+                if isinstance(v, Pattern) and self._embed_ok:   # the same pattern embedded (`__embed__`)
+                    s = self.stm.stream(self.Pseq([v]))
+                    third = pull()
+                    if self.fmt_deep(third) != self.fmt_deep(first):
+                        return ('anomaly', 'embedded', first, third)
+            return first
         if isinstance(v, self.Operand):
-            return self.deep_eval(v.value, x0, take)
+            return self.deep_eval(v.value, x0, take, check)
         if isinstance(v, (list, tuple)):
-            return [self.deep_eval(i, x0, take) for i in v]
+            return [self.deep_eval(i, x0, take, check) for i in v]
         return v
 
     def spec_apply(self, f, ops, take, narop=False):
@@ -312,6 +363,10 @@ class LiftRunner:
         return [self.spec_apply(f, [a, y], take) for y in b]
 
     def fmt_deep(self, v):
+        if isinstance(v, tuple) and v and v[0] == 'anomaly':
+            return [v[1] + '-differs', self.fmt_deep(v[2]), self.fmt_deep(v[3])]
+        if isinstance(v, str):
+            return v
         if isinstance(v, tuple) and v and v[0] == 'strm':
             return ['strm'] + [self.fmt_deep(i) for i in v[1]] + (['stop'] if v[2] else [])
         if isinstance(v, list):
@@ -321,6 +376,8 @@ class LiftRunner:
     def run_numeric(self, case):
         """-> {'lifted': …, 'direct': …}: the composed object evaluated at x0, and the numeric
         selector applied directly to the evaluated operands."""
+        import json
+        self._embed_ok = '"strm"' not in json.dumps(case.get('args'))
         take = case.get('take', 8)
         x0 = parse_num(case['x0'])
         out = {}
@@ -328,7 +385,7 @@ class LiftRunner:
         self.build = self.build_numeric
         try:
             try:
-                out['lifted'] = self.fmt_deep(self.deep_eval(self.apply(case), x0, take))
+                out['lifted'] = self.fmt_deep(self.deep_eval(self.apply(case), x0, take, check=True))
             except Exception as e:
                 out['lifted'] = f'E:{type(e).__name__}'
             try:
